@@ -8,9 +8,12 @@ connection's three shared objects are replaced by recording ones (instance attri
 constructor installs: one bit, no owner — blocking would be a scheduler state), and the stream under the
 real `Channel`.  They log the shared actions the code actually performs — append,
 queue truth test + result, try-lock + result, pop + what was popped, each stream write + which piece of
-which packet, release, return, exception — whatever the source text looks like, so renamed locals, moved
-comments or an equivalent test do not disturb the mapping.  A re-entrant send is a call of `conn._send`
-from inside the stream's `write` on the same thread (a finalizer running during transmission).
+which packet (or its failure), release, call, return, exception — whatever the source text looks like, so
+renamed locals, moved comments or an equivalent test do not disturb the mapping.  A re-entrant send is a
+nested `_send` on the same thread, started at any line of `_send` (before or after any of its shared
+actions, in particular inside the stream's `write`): either a direct call or — the production trigger — the
+last reference to a real `BaseNetref` is dropped there, so that `__del__` -> HANDLE_DEL -> `_send` runs.
+A transport failure is a stream write that raises (and closes the stream, as every rpyc stream does).
 
 Each explored schedule's action sequence is given to the compiled Lean model (`drv_sendq`) as a trace to
 ACCEPT: the model thread must be able to take the same action with the same result at every step; the
@@ -41,20 +44,34 @@ TRUSTED = [
     "modelled, not verified: atomicity under the GIL of list.append, list.pop(0), truth-testing a list and "
     "Lock.acquire(False)/release() (each is one step of the model); threading.Lock = one bit without owner; "
     "the scheduler substitutes (harness/sched.py) for OS threads and the lock; Channel.send makes 1 or 3 "
-    "stream writes and does not fail (transport failure is C11); finalizers run on the thread they interrupt",
+    "stream writes; a failed stream write closes the stream, so every later write fails too (true of every "
+    "stream in rpyc/core/stream.py); finalizers run on the thread they interrupt; asynchronous exceptions "
+    "(KeyboardInterrupt between acquire and try) are not modelled",
 ]
 ASSUMPTIONS = [
     "scheduling granularity is one source line of Connection._send, split further so that a step contains at "
     "most one shared action; preemption inside a single bytecode-level list/lock operation is excluded",
-    "re-entrant sends are started from inside the transport write (before or after the bytes are handed over); "
-    "the model allows them at any point",
-    "stream writes succeed",
+    "per-thread order is claimed per sender (a nested finalizer send is its own sender) and per OS thread for "
+    "nested sends that start after the enclosing call has appended its datum (everywhere the lock is held, in "
+    "particular inside the transport write); a nested send started between the call of _send and its append "
+    "(a collection during brine.dump) overtakes the enclosing message - theorem os_thread_order_needs_restriction, "
+    "corpus/C12/nested-send-before-append-overtakes.json - and is not counted as a violation",
+    "the statement is read over working transports: after a failed stream write the message in that write and "
+    "whatever other threads queued meanwhile stay untransmitted with every sender returned (theorem "
+    "after_transport_failure says exactly what still holds; corpus/C12/stranded-after-failed-write.json); the "
+    "stream is closed by the failure and the owners of stranded requests get EOFError at their next serve()",
 ]
 EXPLANATION = ("Theorems over ALL reachable states of a line-level model of Connection._send with any number of threads, "
-               "messages and nested re-entrant sends (inductive invariant): mutual exclusion and only the holder writes; "
-               "out ++ hand ++ queue = appended (nothing lost or duplicated, append order kept, per-thread order kept); "
-               "every packet's pieces adjacent on the wire; all returned => queue empty, lock free, wire = every appended "
-               "message once; no line ever blocks or raises and the innermost activation can always step (no deadlock).")
+               "messages, nested re-entrant sends at any point and a transport failure at any moment (inductive "
+               "invariants): mutual exclusion, only the holder writes, the lock is never leaked (also on the exception "
+               "path); out ++ lost ++ hand ++ queue = appended (nothing duplicated, append order kept, nothing dropped "
+               "while the transport works, per-sender order, per-OS-thread order for nested sends started past the "
+               "append, with the counterexample before it); every packet's pieces adjacent on the wire, at most one "
+               "truncated packet and only after a failure; all returned and transport alive => queue empty, lock free, "
+               "wire = every appended message once; all returned after a failure => exactly the untransmitted suffix of "
+               "the append order is lost or queued; no line blocks or raises, the innermost activation can always step "
+               "(no deadlock), a sender that does not get the lock is gone after 3 own lines, an undisturbed sender "
+               "returns within 9|queue|+25|calls|+14 lines.")
 
 MAX_STEPS = 1500    # no configuration used here needs a tenth of this many steps
 CHUNK = 64          # MAX_IO_CHUNK of the recording stream: frames above it take three writes
@@ -109,19 +126,20 @@ class ReplayStream:
 
 
 class RecStream:
-    """the stream under the real Channel of the connection under test"""
+    """the stream under the real Channel of the connection under test; like every rpyc stream it closes
+    itself when a write fails, so every later write fails too"""
     MAX_IO_CHUNK = CHUNK
-    closed = False
 
     def __init__(self, run):
         self.run = run
+        self.closed = False
 
     def write(self, data):
         self.run.sched.before_action("_channel")
         self.run.on_write(bytes(data))
 
     def close(self):
-        pass
+        self.closed = True
 
 
 class RecQueue(list):
@@ -132,46 +150,53 @@ class RecQueue(list):
         return self
 
     def append(self, x):
-        self.run.sched.before_action("_send_queue")
+        run = self.run
+        run.sched.before_action("_send_queue")
+        run.hook("a", "b", "_send_queue")
         list.append(self, x)
-        self.run.log("a", self.run.ident(x))
+        run.log("a", run.ident(x))
+        run.hook("a", "a", "_send_queue")
 
-    def __bool__(self):
-        self.run.sched.before_action("_send_queue")
-        r = list.__len__(self) > 0
-        self.run.log("c", int(r))
-        return r
-
-    def __len__(self):
-        self.run.sched.before_action("_send_queue")
+    def _test(self):
+        run = self.run
+        run.sched.before_action("_send_queue")
+        run.hook("c", "b", "_send_queue")
         n = list.__len__(self)
-        self.run.log("c", int(n > 0))
+        run.log("c", int(n > 0))
+        run.hook("c", "a", "_send_queue")
         return n
 
+    def __bool__(self):
+        return self._test() > 0
+
+    def __len__(self):
+        return self._test()
+
     def pop(self, *idx):
-        self.run.sched.before_action("_send_queue")
+        run = self.run
+        run.sched.before_action("_send_queue")
+        run.hook("p", "b", "_send_queue")
         try:
             x = list.pop(self, *idx)
         except IndexError:
-            self.run.log("P", "IndexError")
+            run.log("P", "IndexError")
             raise
-        self.run.log("p", self.run.ident(x))
+        run.log("p", run.ident(x))
+        run.hook("p", "a", "_send_queue")
         return x
 
 
 _WIRE_FORM = {}
 
 
-def wire_form(mid, big):
-    """(payload, the datum `_send` queues, the chunks the real Channel.send writes for it) — cached per code"""
-    _Connection, Channel, brine, consts = rpyc_parts()
-    key = (mid, big, Channel.send.__code__, brine.dump.__code__)
+def wire_form(data):
+    """the chunks the real Channel.send writes for a queued datum — learnt by running it on a scratch stream"""
+    _Connection, Channel, _brine, _consts = rpyc_parts()
+    key = (data, Channel.send.__code__)
     if key not in _WIRE_FORM:
-        payload = bytes(PAD_BIG) if big else b""
-        data = brine.dump((consts.MSG_REQUEST, mid, payload))
         st = ScratchStream()
         Channel(st).send(data)
-        _WIRE_FORM[key] = (payload, data, st.chunks)
+        _WIRE_FORM[key] = st.chunks
     return _WIRE_FORM[key]
 
 
@@ -185,8 +210,7 @@ def real_lock_is_reentrant():
     if key not in _LOCK_KIND:
         import threading
         try:
-            from rpyc.core.service import VoidService
-            conn = Connection(VoidService(), Channel(ScratchStream()))
+            conn = make_connection(ScratchStream())
             lock = conn._sendlock
             conn._closed = True
             _LOCK_KIND[key] = (type(lock) is type(threading.RLock()), type(lock).__name__)
@@ -195,65 +219,113 @@ def real_lock_is_reentrant():
     return _LOCK_KIND[key]
 
 
+def make_connection(stream):
+    Connection, Channel, _brine, _consts = rpyc_parts()
+    from rpyc.core.service import VoidService
+    return Connection(VoidService(), Channel(stream))
+
+
+def norm_reent(e):
+    """re-entrant send: while the logical thread that is sending message `trig` performs its k-th action of
+    `kind` (a append, c queue test, l try-lock, p pop, r release; for w: piece k of packet `trig`, whoever
+    writes it), before ('b') or after ('a') the action takes effect, the same OS thread calls `_send(msg)`
+    again — directly ('d') or because the last reference to a real netref proxy is dropped there and its
+    `__del__` sends HANDLE_DEL ('g')"""
+    if isinstance(e, dict):
+        return dict(trig=e["trig"], kind=e["kind"], k=e["k"], when=e["when"], msg=list(e["msg"]), via=e.get("via", "d"))
+    trig, k, when, msg = e[:4]
+    return dict(trig=trig, kind="w", k=k, when=when, msg=list(msg), via="d")
+
+
 class Run:
     """one execution of a configuration under the scheduler.
-    progs: per OS thread, the list of (id, big) it sends; reent: list of (trigger id, piece, 'b'|'a', (id, big)):
-    while piece k of message `trigger` is being written (before / after the bytes are handed over), the writing
-    thread calls `_send` again with the given message."""
+    progs: per OS thread, the list of (id, big) it sends; reent: see `norm_reent`; fail: (id, k) — the
+    transport breaks when piece k of packet id is about to be written (that write and every later one raise)."""
 
-    def __init__(self, progs, reent=()):
+    def __init__(self, progs, reent=(), fail=None):
         Connection, Channel, brine, consts = rpyc_parts()
-        self.progs = [list(p) for p in progs]
-        self.reent = list(reent)
+        self.brine = brine
+        self.progs = [[tuple(m) for m in p] for p in progs]
+        self.reent = [norm_reent(e) for e in reent]
+        self.fail = tuple(fail) if fail else None
         self.msg_kind = consts.MSG_REQUEST
         self.sched = S.Scheduler(targets=[Connection._send.__code__], skip=skip_line)
         self.actions = []                 # tokens, in the order the real code acted
-        self.raw = bytearray()            # every byte handed to the stream
+        self.raw = bytearray()            # every byte the stream accepted
         self.n_os = len(self.progs)
         self.next_lt = self.n_os
-        self.lstack = dict((t, [t]) for t in range(self.n_os))
+        self.lstack = dict((t, []) for t in range(self.n_os))       # active `_send` activations per OS thread
         self.call_order = dict((t, []) for t in range(self.n_os))   # ids in the order each OS thread called _send
+        self.early = set()                # ids of nested calls that started before an enclosing call had appended
         self.lt_prog = dict((t, [m for m, _b in p]) for t, p in enumerate(self.progs))
+        self.os_of = {}                   # message id -> OS thread that called _send with it
         self.errors = []
+        self.expected_exc = 0             # calls ended by the injected transport failure
         self.writes_since_pop = {}
         self.cur_id = {}
+        self.cur_call = {}                # logical thread -> id of the message its current call sends
+        self.counts = {}                  # logical thread -> {kind: actions of that kind in the current call}
+        self.appended_flag = {}           # logical thread -> its current call has appended
+        self.append_order = []
         self.fired = set()
         self.hand = None                  # [id, writes done] of the popped, not yet fully written message
-        self.por_violations = 0
-        # what each message looks like on the wire, learnt from the real Channel.send on a scratch stream
-        self.payload, self.data_of, self.pieces, self.id_of_data = {}, {}, {}, {}
-        allmsgs = [m for p in self.progs for m in p] + [m for (_t, _k, _w, m) in self.reent]
-        for mid, big in allmsgs:
-            self.payload[mid], self.data_of[mid], self.pieces[mid] = wire_form(mid, big)
-            self.id_of_data[self.data_of[mid]] = mid
-        self.big = dict((mid, len(self.pieces[mid]) == 3) for mid, _ in allmsgs)
-        self.inexpressible = [mid for mid, _ in allmsgs if len(self.pieces[mid]) not in (1, 3)]
-        conn = Connection.__new__(Connection)
-        conn._closed = True               # so that __del__ / close() are no-ops
+        self.dead = False
+        self.lost = []
+        self.stub = 0
+        self.big, self.payload, self.id_of_data, self.pieces_of = {}, {}, {}, {}
+        for mid, big in [m for p in self.progs for m in p] + [tuple(e["msg"]) for e in self.reent]:
+            self.big[mid] = bool(big)
+            self.payload[mid] = bytes(PAD_BIG) if big else b""
+        try:
+            conn = make_connection(RecStream(self))
+            self.bare = False
+        except Exception:  # noqa - constructor unusable: fall back to a bare object (no netref triggers)
+            conn = Connection.__new__(Connection)
+            conn._channel = Channel(RecStream(self))
+            self.bare = True
+        self.stream = conn._channel.stream
         conn._send_queue = RecQueue().bind(self)
-        conn._sendlock = S.SchedLock(self.sched, on_event=self.on_lock, name="_sendlock",
+        conn._sendlock = S.SchedLock(self.sched, on_event=self.on_lock, pre_event=self.pre_lock, name="_sendlock",
                                      reentrant=real_lock_is_reentrant()[0])
-        conn._channel = Channel(RecStream(self))
+        conn._send = self.send_wrapper    # instance attribute: every `self._send(...)` of the real code goes through it
+        self.real_send = Connection._send
         self.conn = conn
+        self.victims = {}
+        if not self.bare:
+            from rpyc.core.netref import BaseNetref
+            for i, e in enumerate(self.reent):
+                if e["via"] == "g":
+                    self.victims[i] = BaseNetref(conn, ("builtins.object", 1000 + i, 0))
+        self.inexpressible = []
         for t in range(self.n_os):
             self.sched.spawn(t, self.body, t)
 
     # -------------------------------------------------------------- thread side
     def lt(self):
-        return self.lstack[self.sched.current()][-1]
+        st = self.lstack[self.sched.current()]
+        return st[-1] if st else self.sched.current()
+
+    def tok(self, tok):
+        self.actions.append(tok)
 
     def log(self, kind, *detail):
         lt = self.lt()
-        if kind in ("a", "p"):
-            if kind == "p":
-                self.writes_since_pop[lt] = 0
-                self.cur_id[lt] = None
-                self.hand = [detail[0], 0]
-            tok = "%s%d:%s" % (kind, lt, detail[0])
+        if kind in "aclprwf" and kind not in ("f",):
+            c = self.counts.setdefault(lt, {})
+            c[kind] = c.get(kind, 0) + 1
+        if kind == "a":
+            self.appended_flag[lt] = True
+            self.append_order.append(detail[0])
+            tok = "a%d:%s" % (lt, detail[0])
+        elif kind == "p":
+            self.writes_since_pop[lt] = 0
+            self.cur_id[lt] = None
+            self.hand = [detail[0], 0]
+            tok = "p%d:%s" % (lt, detail[0])
         elif kind in ("c", "l"):
             tok = "%s%d:%d" % (kind, lt, detail[0])
-        elif kind == "w":
-            tok = "w%d:%s.%d" % (lt, detail[0], detail[1])
+        elif kind in ("w", "f"):
+            tok = "%s%d:%s.%d" % (kind, lt, detail[0], detail[1])
         elif kind in ("r", "x", "B"):
             tok = "%s%d" % (kind, lt)
         else:
@@ -261,13 +333,34 @@ class Run:
         self.actions.append(tok)
 
     def ident(self, data):
-        return self.id_of_data.get(bytes(data), "?") if isinstance(data, (bytes, bytearray)) else "?"
+        """the id (= seq field) of a queued datum, '?' if it is not a datum `_send` could have produced"""
+        if not isinstance(data, (bytes, bytearray)):
+            return "?"
+        data = bytes(data)
+        if data not in self.id_of_data:
+            try:
+                _msg, seq, _args = self.brine.load(data)
+            except Exception:  # noqa
+                seq = "?"
+            self.id_of_data[data] = seq if seq in self.big else "?"
+        return self.id_of_data[data]
+
+    def pieces(self, data):
+        return wire_form(bytes(data))
+
+    def pre_lock(self, kind):
+        self.hook("l" if kind in ("try", "block") else "r", "b", "_sendlock")
 
     def on_lock(self, kind, result):
         if kind == "try":
             self.log("l", int(result))
+            self.hook("l", "a", "_sendlock")
         elif kind == "release":
-            self.log("r" if result else "R", *(() if result else ("unlocked",)))
+            if result:
+                self.log("r")
+                self.hook("r", "a", "_sendlock")
+            else:
+                self.log("R", "unlocked")
         elif kind == "block":
             self.log("B")
         else:
@@ -277,54 +370,124 @@ class Run:
         lt = self.lt()
         k = self.writes_since_pop.get(lt, 0)
         if k == 0:
-            mid = next((m for m, ps in self.pieces.items() if ps[0] == chunk), "?")
+            mid = "?"
+            for data, i in self.id_of_data.items():
+                if i != "?" and self.pieces(data)[0] == chunk:
+                    mid = i
             self.cur_id[lt] = mid
         else:
             mid = self.cur_id.get(lt)
-            if mid in (None, "?") or k >= len(self.pieces[mid]) or self.pieces[mid][k] != chunk:
+            data = self.data_of(mid)
+            if data is None or k >= len(self.pieces(data)) or self.pieces(data)[k] != chunk:
                 mid = "?"
-        self.nested(mid, k, "b")
+        if mid != "?" and len(self.pieces(self.data_of(mid))) not in (1, 3):
+            self.inexpressible.append(mid)
+        self.hook("w", "b", "_channel", packet=(mid, k))
+        if self.fail is not None and not self.dead and (mid, k) == self.fail:
+            self.dead = True
+            self.tok("D")
+        if self.dead:
+            self.stream.closed = True
+            self.log("f", mid, k)
+            if self.hand is not None:
+                if not self.lost and not self.stub:
+                    self.stub = self.hand[1]
+                self.lost.append(self.hand[0])
+                self.hand = None
+            raise EOFError("injected transport failure")
         self.raw += chunk
         self.log("w", mid, k)
         self.writes_since_pop[lt] = k + 1
         if self.hand is not None:
             self.hand[1] += 1
-            if self.hand[0] not in self.pieces or self.hand[1] >= len(self.pieces[self.hand[0]]):
+            data = self.data_of(self.hand[0])
+            if data is None or self.hand[1] >= len(self.pieces(data)):
                 self.hand = None
-        self.nested(mid, k, "a")
+        self.hook("w", "a", "_channel", packet=(mid, k))
 
-    def nested(self, mid, k, when):
-        for i, (trig, piece, w, msg) in enumerate(self.reent):
-            if trig == mid and piece == k and w == when and i not in self.fired:
-                self.fired.add(i)
-                os_t = self.sched.current()
-                parent, child = self.lstack[os_t][-1], self.next_lt
-                self.next_lt += 1
-                self.lt_prog[child] = [msg[0]]
-                self.actions.append("n%d:%d:%d%s" % (parent, child, msg[0], "b" if self.big[msg[0]] else "s"))
-                self.lstack[os_t].append(child)
+    def data_of(self, mid):
+        for data, i in self.id_of_data.items():
+            if i == mid:
+                return data
+        return None
+
+    def hook(self, kind, when, label, packet=None):
+        """fire the re-entrant sends scripted for this point"""
+        if not self.reent:
+            return
+        lt = self.lt()
+        for i, e in enumerate(self.reent):
+            if i in self.fired or e["kind"] != kind or e["when"] != when:
+                continue
+            if kind == "w":
+                if packet != (e["trig"], e["k"]):
+                    continue
+            elif self.cur_call.get(lt) != e["trig"] or self.counts.get(lt, {}).get(kind, 0) - (when == "a") != e["k"]:
+                continue
+            self.fired.add(i)
+            mid = e["msg"][0]
+            if e["via"] == "g" and i in self.victims:
+                import itertools
+                self.conn._seqcounter = itertools.count(mid)   # the finalizer's HANDLE_DEL request gets this seq
+                self.pending_nested = mid
+                self.victims.pop(i)                            # last reference: BaseNetref.__del__ runs here
+            else:
                 try:
-                    self.call_send(os_t, msg[0], swallow=True)
-                finally:
-                    self.lstack[os_t].pop()
-                self.sched.yield_point("_channel")
-                self.sched.touch("_channel")
+                    self.conn._send(self.msg_kind, mid, self.payload[mid])
+                except Exception:  # noqa - a finalizer's exception is swallowed by the interpreter
+                    pass
+            if when == "b":
+                self.sched.yield_point(label)
+                self.sched.touch(label)
 
-    def call_send(self, os_t, mid, swallow=False):
-        self.call_order[os_t].append(mid)
-        try:
-            self.conn._send(self.msg_kind, mid, self.payload[mid])
-        except Exception as ex:  # noqa - the property says senders do not fail
-            self.log("e", type(ex).__name__)
-            self.errors.append((self.lt(), mid, type(ex).__name__))
-            if not swallow:          # a finalizer's exception is swallowed by the interpreter
-                raise
+    def send_wrapper(self, msg, seq, args):
+        """every `_send` call of the connection: book-keeping of activations around the REAL `_send`"""
+        os_t = self.sched.current()
+        if os_t is None:
+            return self.real_send(self.conn, msg, seq, args)
+        stack = self.lstack[os_t]
+        mid = seq if seq in self.big else "?"
+        if stack:
+            child = self.next_lt
+            self.next_lt += 1
+            self.lt_prog[child] = [mid]
+            self.tok("n%d:%d:%s%s" % (stack[-1], child, mid, "b" if self.big.get(mid) else "s"))
+            if not all(self.appended_flag.get(a) for a in stack):
+                self.early.add(mid)
+            lt = child
         else:
-            self.log("x")
+            lt = os_t
+        stack.append(lt)
+        self.call_order[os_t].append(mid)
+        self.os_of[mid] = os_t
+        self.cur_call[lt] = mid
+        self.counts[lt] = {}
+        self.appended_flag[lt] = False
+        self.tok("s%d:%s" % (lt, mid))
+        try:
+            self.real_send(self.conn, msg, seq, args)
+        except S.SchedAbort:
+            raise
+        except Exception as ex:  # noqa
+            name = type(ex).__name__
+            self.tok("e%d:%s" % (lt, name))
+            if name == "EOFError" and self.dead:
+                self.expected_exc += 1
+            else:
+                self.errors.append((lt, mid, name))
+            raise
+        else:
+            self.tok("x%d" % lt)
+        finally:
+            stack.pop()
 
     def body(self, os_t):
         for mid, _big in self.progs[os_t]:
-            self.call_send(os_t, mid)
+            try:
+                self.conn._send(self.msg_kind, mid, self.payload[mid])
+            except EOFError:
+                if not self.dead:
+                    raise             # after the injected failure the thread goes on with its next message
 
     # -------------------------------------------------------------- driver side
     def op_line(self):
@@ -350,15 +513,11 @@ class Run:
                 problem = "wire does not parse as packets at byte %d: %s" % (start, type(ex).__name__)
                 rs.pos = start
                 break
-            try:
-                msg, seq, args = brine.load(data)
-            except Exception as ex:  # noqa
-                problem = "packet at byte %d is not a message: %s" % (start, type(ex).__name__)
+            mid = self.ident(data)
+            if mid == "?" or data != self.data_of(mid):
+                problem = "packet at byte %d is not one of the messages sent" % start
                 break
-            if seq not in self.data_of or data != self.data_of[seq]:
-                problem = "packet at byte %d is not one of the messages sent (seq %r)" % (start, seq)
-                break
-            ids.append(seq)
+            ids.append(mid)
         return ids, len(rs.data) - rs.pos, problem
 
     def facts(self, result):
@@ -369,20 +528,33 @@ class Run:
         ids, _trailing, _problem = self.wire_packets()
         hand = "-" if self.hand is None else "%s.%d" % (self.hand[0], self.hand[1])
         order = True
+        left = ids + self.lost + ([self.hand[0]] if self.hand is not None else []) + q
         for lt, prog in self.lt_prog.items():
-            mine = [i for i in ids if i in prog]
-            if self.hand is not None and self.hand[0] in prog:
-                mine.append(self.hand[0])
-            mine += [i for i in q if i in prog]
+            mine = [i for i in left if i in prog]
             if mine != prog[:len(mine)]:
                 order = False
+        osorder = True
+        for os_t, called in self.call_order.items():
+            app = [i for i in self.append_order if self.os_of.get(i) == os_t]
+            if app != called[:len(app)]:
+                osorder = False
         show = lambda l: ",".join(str(i) for i in l) or "-"
-        return "accept%s stuck=%s done=%s q=%s lock=%s hand=%s wire=%s order=%s threads=%d" % (
-            " step-limit" if result.truncated else "", "T" if result.deadlock else "F", "T" if done else "F", show(q),
-            "T" if self.conn._sendlock.locked() else "F", hand, show(ids), "T" if order else "F", self.next_lt)
+        return ("accept%s stuck=%s done=%s q=%s lock=%s hand=%s wire=%s order=%s threads=%d dead=%s lost=%s stub=%d "
+                "osorder=%s" % (
+                    " step-limit" if result.truncated else "", "T" if result.deadlock else "F", "T" if done else "F",
+                    show(q), "T" if self.conn._sendlock.locked() else "F", hand, show(ids), "T" if order else "F",
+                    self.next_lt, "T" if self.dead else "F", show(self.lost), self.stub, "T" if osorder else "F"))
 
     def close(self):
-        self.sched.close()
+        import sys
+        hook = sys.unraisablehook
+        sys.unraisablehook = lambda *a: None      # unwinding a thread parked inside a finalizer's send is not news
+        try:
+            self.sched.close()
+            self.conn._closed = True
+            self.victims.clear()
+        finally:
+            sys.unraisablehook = hook
 
 
 # ---------------------------------------------------------------------------------------------- local lines
@@ -446,11 +618,14 @@ def state_key(run):
     lock = run.conn._sendlock
     return (tuple(sc.signature(t) for t in sc.order),
             tuple(run.ident(x) for x in list.__iter__(run.conn._send_queue)),
-            (lock.held, lock.owner, lock.count),
+            (lock.held, lock.owner, lock.count), run.dead,
             run.next_lt, tuple(sorted(run.fired)), tuple(len(run.call_order[t]) for t in range(run.n_os)),
             tuple(tuple(run.lstack[t]) for t in range(run.n_os)),
             tuple(sorted(run.writes_since_pop.items())), tuple(sorted((k, str(v)) for k, v in run.cur_id.items())),
-            None if run.hand is None else (str(run.hand[0]), run.hand[1]), len(run.errors))
+            tuple(sorted((k, str(v)) for k, v in run.cur_call.items())),
+            tuple(sorted((k, tuple(sorted(v.items()))) for k, v in run.counts.items())),
+            tuple(sorted(run.appended_flag.items())),
+            None if run.hand is None else (str(run.hand[0]), run.hand[1]), len(run.errors), run.expected_exc)
 
 
 def skip_line(code, lineno):
@@ -471,12 +646,13 @@ def access(run, tid):
 
 
 # ---------------------------------------------------------------------------------------------- configurations
-def cfg(progs, reent=()):
-    return dict(progs=[[list(m) for m in p] for p in progs], reent=[[t, k, w, list(m)] for (t, k, w, m) in reent])
+def cfg(progs, reent=(), fail=None):
+    return dict(progs=[[list(m) for m in p] for p in progs], reent=[norm_reent(e) for e in reent],
+                fail=list(fail) if fail else None)
 
 
 def new_run(c):
-    return Run([[tuple(m) for m in p] for p in c["progs"]], [(t, k, w, tuple(m)) for (t, k, w, m) in c["reent"]])
+    return Run(c["progs"], c.get("reent", ()), c.get("fail"))
 
 
 C_2x1 = cfg([[(1, False)], [(2, False)]])
@@ -494,6 +670,27 @@ C_3x121 = cfg([[(1, False)], [(2, False), (3, True)], [(4, False)]])
 C_3x222_R = cfg([[(1, False), (2, False)], [(3, True), (4, False)], [(5, False), (6, False)]], [(3, 0, "a", (9, False))])
 
 
+def H(trig, kind, k, when, msg, via="d"):
+    return dict(trig=trig, kind=kind, k=k, when=when, msg=list(msg), via=via)
+
+
+# a nested send at EVERY line of `_send` (before / after each of its shared actions), one configuration each;
+# half of them through a real netref finalizer
+EVERY_LINE = [("a", 0, "b"), ("a", 0, "a"), ("c", 0, "b"), ("c", 0, "a"), ("l", 0, "b"), ("l", 0, "a"),
+              ("c", 1, "b"), ("c", 1, "a"), ("p", 0, "b"), ("p", 0, "a"), ("w", 0, "b"), ("w", 0, "a"),
+              ("r", 0, "b"), ("r", 0, "a"), ("c", 2, "b"), ("c", 2, "a")]
+C_EVERY_LINE = [("2x1+reentrant@%s%d%s" % (kind, k, when),
+                 cfg([[(1, False)], [(2, False)]], [H(1, kind, k, when, (9, False), "g" if i % 2 else "d")]))
+                for i, (kind, k, when) in enumerate(EVERY_LINE)]
+C_2x12_FAIL0 = cfg([[(1, False)], [(2, False), (3, False)]], fail=(1, 0))
+C_2x1_BIG_FAIL1 = cfg([[(1, True), (3, False)], [(2, False)]], fail=(1, 1))
+C_2x1_BIG_FAIL2_R = cfg([[(1, True)], [(2, False)]], [H(1, "w", 1, "b", (9, False), "g")], fail=(1, 2))
+C_2x2_FAIL = cfg([[(1, False), (2, False)], [(3, False), (4, False)]], fail=(3, 0))
+C_4x1 = cfg([[(1, False)], [(2, False)], [(3, False)], [(4, False)]])
+C_2x4 = cfg([[(1, False), (2, False), (3, False), (4, False)], [(5, False), (6, False), (7, False), (8, False)]])
+C_2x15 = cfg([[(1, False)], [(2, False), (3, False), (4, False), (5, False), (6, False)]])
+
+
 def quick_exhaustive():
     """explored path by path: EVERY interleaving (up to the order of independent steps)"""
     return [("2x1", C_2x1), ("2x1-big", C_2x1_BIG), ("2x(1,2)", C_2x12),
@@ -501,41 +698,54 @@ def quick_exhaustive():
 
 
 def thorough_exhaustive():
-    return [("2x1+reentrant-after-write", C_2x1_RA)]
+    return [("2x1+reentrant-after-write", C_2x1_RA), ("2x(1,2)+write-fails", C_2x12_FAIL0)]
 
 
 def quick_stateful():
     """explored state by state: every reachable state expanded once, every transition executed"""
-    return [("2x1+reentrant-after-write", C_2x1_RA), ("2x2", C_2x2), ("2x(1,2)-big+reentrant-mid-packet", C_2x12_R)]
+    return ([("2x1+reentrant-after-write", C_2x1_RA), ("2x2", C_2x2), ("2x(1,2)-big+reentrant-mid-packet", C_2x12_R),
+             ("2x(1,2)+write-fails", C_2x12_FAIL0), ("2x(2,1)-big+write-fails-mid-packet", C_2x1_BIG_FAIL1),
+             ("2x1-big+netref-finalizer+write-fails", C_2x1_BIG_FAIL2_R)]
+            + [c for c in C_EVERY_LINE if c[0].split("@")[1] in ("a0b", "l0a", "p0b", "r0a")])
 
 
 def thorough_stateful():
-    return [("2x2-big", C_2x2_BIG), ("2x3", C_2x3), ("3x1", C_3x1), ("3x(1,2,1)", C_3x121)]
+    return ([c for c in C_EVERY_LINE if c[0].split("@")[1] not in ("a0b", "l0a", "p0b", "r0a")]
+            + [("2x2-big", C_2x2_BIG), ("2x2+write-fails", C_2x2_FAIL), ("2x3", C_2x3), ("2x(1,5)", C_2x15),
+               ("2x4", C_2x4), ("3x1", C_3x1), ("3x(1,2,1)", C_3x121)])
 
 
 def bounded_configs():
-    return [("3x1", C_3x1), ("3x(1,2,1)", C_3x121), ("3x(2,2,2)+reentrant", C_3x222_R)]
+    return [("3x1", C_3x1), ("3x(1,2,1)", C_3x121), ("4x1", C_4x1), ("3x(2,2,2)+reentrant", C_3x222_R)]
 
 
-def random_config(r, with_reent):
-    nthreads = 3 if r.chance(3, 4) else 2
+def random_config(r, with_reent, large=False, with_fail=False):
+    """2-3 threads x 1-3 messages (large: up to 5 threads x up to 5 messages); re-entrant sends at random lines of
+    `_send` (half through a real netref finalizer), possibly nested in one another; optionally a failing write"""
+    nthreads = r.range(2, 5) if large else (3 if r.chance(3, 4) else 2)
     progs, mid = [], 1
     for _ in range(nthreads):
         p = []
-        for _ in range(r.range(1, 3)):
+        for _ in range(r.range(1, 5 if large else 3)):
             p.append((mid, r.chance(1, 4)))
             mid += 1
         progs.append(p)
+    bigof = dict(m for p in progs for m in p)
     reent = []
     if with_reent:
-        for j in range(r.range(1, 2)):
+        for j in range(r.range(1, 3)):
             trig = r.range(1, mid - 1)
-            big = [b for p in progs for (m, b) in p if m == trig][0]
-            k = r.below(3) if big else 0
-            reent.append((trig, k, r.choice(["b", "a"]), (90 + j, r.chance(1, 5))))
+            kind = r.choice("aclprwww")
+            k = r.below(3) if (kind == "w" and bigof[trig]) else (0 if kind in "apw" else r.below(3))
+            big = r.chance(1, 6)
+            reent.append(H(trig, kind, k, r.choice("ba"), (90 + j, big), "d" if big or r.chance(1, 2) else "g"))
         if r.chance(1, 4):      # a nested send inside the transmission of a nested send's message
-            reent.append((90, 0, r.choice(["b", "a"]), (95, False)))
-    return cfg(progs, reent)
+            reent.append(H(90, "w", 0, r.choice("ba"), (95, False), r.choice("dg")))
+    fail = None
+    if with_fail:
+        t = r.range(1, mid - 1)
+        fail = (t, r.below(3) if bigof[t] else 0)
+    return cfg(progs, reent, fail)
 
 
 # ---------------------------------------------------------------------------------------------- exploring
@@ -553,7 +763,14 @@ class Batch:
                 run.pieces[run.inexpressible[0]])
         line = run.op_line()
         want = run.facts(res)
-        case = dict(kind="schedule", progs=conf["progs"], reent=conf["reent"], schedule=list(res.schedule))
+        case = dict(kind="schedule", progs=conf["progs"], reent=conf["reent"], fail=conf.get("fail"),
+                    schedule=list(res.schedule))
+        if run.dead and run.sched.all_finished():
+            self.c.count("after-failed-write:all-returned")
+            if list.__len__(run.conn._send_queue):
+                self.c.count("after-failed-write:all-returned-with-messages-left-queued")
+            if run.conn._sendlock.locked():
+                self.c.count("after-failed-write:LOCK-LEAKED")
         if res.pruned:
             case["prefix"] = True         # the exploration cut this execution short: a real prefix
         self.pending.append((family, case, line, want, list(run.actions)))
@@ -585,25 +802,33 @@ class Batch:
                 c.count("trace-has:failed-try-lock")
             if any(a[0] == "c" and a.endswith(":0") for a in actions):
                 c.count("trace-has:empty-queue-test")
-            c.count("impl:" + " ".join(w for w in want.split(" ") if w.split("=")[0] in ("accept", "stuck", "done", "order")))
+            c.count("impl:" + " ".join(w for w in want.split(" ") if w.split("=")[0] in
+                                       ("accept", "stuck", "done", "order", "dead", "osorder")))
+            c.count("threads:%d" % len(case["progs"]))
+            c.count("messages-per-thread-max:%d" % max(len(p) for p in case["progs"]))
+            for e in case["reent"]:
+                c.count("nested-send@%s%d%s-via-%s" % (e["kind"], e["k"], e["when"],
+                                                        "netref-finalizer" if e["via"] == "g" else "direct-call"))
             c.count("model:" + got.split(" ")[0])
             if sw > nthreads - 1:          # more thread switches than a serial execution has
                 c.signatures.add(" ".join(actions))
             if got != want:
                 c.disagreements.append(dict(case=case, op=line[:1500], impl=want, model=got[:400]))
             elif len(c.samples) < 10 and (c.evaluations % 397 == 1 or (case["reent"] and c.evaluations % 97 == 3)):
-                c.samples.append(dict(family=family, progs=case["progs"], reent=case["reent"],
+                c.samples.append(dict(family=family, progs=case["progs"], reent=case["reent"], fail=case["fail"],
                                       schedule="".join(str(t) for t in case["schedule"]),
                                       trace=" ".join(actions), outcome=want))
         self.pending = []
 
 
-KIND_NAME = dict(a="append", c="queue-test", l="try-lock", p="pop", w="stream-write", r="release", x="return",
+KIND_NAME = dict(s="call", D="transport-breaks", f="failed-write", a="append", c="queue-test", l="try-lock", p="pop", w="stream-write", r="release", x="return",
                  n="nested-send", e="exception", B="blocking-acquire", L="blocking-acquire-granted",
                  R="release-unlocked", P="pop-failed")
 
 
 def thread_of(tok):
+    if tok == "D":
+        return "-"
     i = 1
     while i < len(tok) and tok[i].isdigit():
         i += 1
@@ -650,7 +875,10 @@ def check_por(n=40):
     bad = []
     r = Rng(7)
     for i in range(n):
-        conf = cfg([[(1, True), (3, False)], [(2, False)]], [(1, i % 3, "ba"[i % 2], (9, False)), (9, 0, "a", (8, False))])
+        kind, k, when = EVERY_LINE[i % len(EVERY_LINE)]
+        conf = cfg([[(1, True), (3, False)], [(2, False)]],
+                   [H(1, kind, k, when, (9, False), "dg"[i % 2]), H(9, "w", 0, "a", (8, False)),
+                    H(3, "w", 0, "ba"[i % 2], (7, True))], fail=(2, 0) if i % 5 == 4 else None)
         run = new_run(conf)
         declared = {}
 
@@ -682,8 +910,12 @@ def correspondence(ctx):
               "2 threads x 1 / (1,2) messages incl. a 3-write packet and re-entrant sends before a write and nested "
               "twice mid-packet; (b) state-exhaustive DFS (every reachable real state - thread stacks with bytecode "
               "offsets and locals, queue, lock, harness bookkeeping - expanded once, every transition executed) for "
-              "2x2, 2x3, 3x1, 3x(1,2,1) and re-entrant variants; (c) preemption-bounded DFS for 3 threads; (d) seeded "
-              "random schedules of 2-3 threads x 1-3 messages with and without re-entrant sends, uniform and sticky. "
+              "2x2 (thorough: 2x3, 2x4, 2x(1,5), 3x1, 3x(1,2,1)), for a nested send at EVERY line of _send (before and "
+              "after each of its shared actions; half of them started by dropping the last reference to a real netref "
+              "proxy so that BaseNetref.__del__ -> HANDLE_DEL -> _send re-enters), and for a stream write that FAILS "
+              "(first piece, mid-packet, with a nested send); (c) preemption-bounded DFS for 3 (thorough: 4) threads; "
+              "(d) seeded random schedules of 2-3 threads x 1-3 messages (thorough: up to 5 threads x 5 messages) with "
+              "and without nested sends at random lines and failing writes, uniform and sticky. "
               "distinct = distinct action sequence; non-trivial = more thread switches in the action sequence than a "
               "serial execution has.")
     t0 = time.time()
@@ -696,6 +928,18 @@ def correspondence(ctx):
     batch = Batch(c, ctx)
     thorough = ctx.tier == "thorough"
     exhaustive_done, stateful_done, bounded = {}, {}, {}
+    import glob
+    import json
+    import os
+    for path in sorted(glob.glob(os.path.join(os.path.dirname(os.path.abspath(__file__)), "..", "..", "corpus", "C12", "*.json"))):
+        with open(path) as f:
+            case = json.load(f)["case"]
+        conf = dict(progs=case["progs"], reent=case.get("reent", []), fail=case.get("fail"))
+        run, res = run_one(conf, schedule=case["schedule"])
+        try:
+            batch.add("corpus:" + os.path.basename(path)[:-5], conf, run, res)
+        finally:
+            run.close()
     for name, conf in quick_exhaustive() + (thorough_exhaustive() if thorough else []):
         n, complete = explore_dfs(batch, "exhaustive:" + name, conf, deadline=t0 + ctx.budget(40, 120))
         exhaustive_done[name] = dict(schedules=n, complete=complete)
@@ -704,21 +948,31 @@ def correspondence(ctx):
         n, complete = explore_dfs(batch, "all-states:" + name, conf, stateful=True, deadline=t0 + ctx.budget(55, 420))
         stateful_done[name] = dict(executions=n, complete=complete)
     ctx.log("state-exhaustive families: %s (%.1fs)" % (stateful_done, time.time() - t0))
-    for name, conf in bounded_configs()[:ctx.budget(1, 3)]:
+    for name, conf in bounded_configs()[:ctx.budget(1, 4)]:
         n, complete = explore_dfs(batch, "preemption<=%d:%s" % (ctx.budget(2, 3), name), conf, bound=ctx.budget(2, 3),
                                   max_runs=ctx.budget(3000, 60000), deadline=t0 + ctx.budget(60, 640))
         bounded[name] = dict(schedules=n, complete=complete, bound=ctx.budget(2, 3))
     ctx.log("preemption-bounded families: %s (%.1fs)" % (bounded, time.time() - t0))
     r = Rng(ctx.seed).fork("c12")
+    for name, conf in C_EVERY_LINE:       # a nested send at every line of `_send`: seeded schedules in every tier
+        for i in range(ctx.budget(40, 200)):
+            run, res = run_one(conf, rng=r, stickiness=[0, 2, 6][i % 3])
+            try:
+                batch.add("random:" + name, conf, run, res)
+            finally:
+                run.close()
     n_rand = ctx.budget(2000, 40000)
     t_rand = time.time()
     done_rand = 0
     for i in range(n_rand):
         with_reent = i % 2 == 1
-        conf = random_config(r, with_reent)
+        with_fail = i % 5 == 3
+        large = thorough and i % 3 == 0
+        conf = random_config(r, with_reent, large=large, with_fail=with_fail)
         run, res = run_one(conf, rng=r, stickiness=[0, 0, 2, 6][i % 4])
         try:
-            batch.add("random:%s" % ("reentrant" if with_reent else "plain"), conf, run, res)
+            batch.add("random:%s%s%s" % ("reentrant" if with_reent else "plain", "+write-fails" if with_fail else "",
+                                         "+large" if large else ""), conf, run, res)
         finally:
             run.close()
         done_rand += 1
@@ -727,6 +981,10 @@ def correspondence(ctx):
     batch.flush()
     ctx.log("random schedules: %d (%.1fs)" % (done_rand, time.time() - t_rand))
     c.extra["sendlock_type_installed_by_constructor"] = real_lock_is_reentrant()[1]
+    try:
+        c.extra["real_connection_after_failed_write"] = failed_write_probe()
+    except Exception as ex:  # noqa - evidence only
+        c.extra["real_connection_after_failed_write"] = "probe failed: %s" % type(ex).__name__
     c.extra["exhaustive_families"] = exhaustive_done
     c.extra["state_exhaustive_families"] = stateful_done
     c.extra["preemption_bounded_families"] = bounded
@@ -736,13 +994,84 @@ def correspondence(ctx):
     return c
 
 
+def failed_write_probe():
+    """What the owner of a message stranded by a failed write observes on a REAL connection (real lock, real
+    threads, events instead of the scheduler): thread A is inside the transport write when thread B issues a
+    request (queued, B returns); A's write fails.  Evidence for the scope decision in Props/C12.lean; C11's
+    subject, not checked here."""
+    import threading
+    _Connection, _Channel, _brine, consts = rpyc_parts()
+
+    class Stream:
+        MAX_IO_CHUNK = 64000
+
+        def __init__(self):
+            self.closed, self.entered, self.go, self.n = False, threading.Event(), threading.Event(), 0
+
+        def write(self, data):
+            self.n += 1
+            if self.n == 1:
+                self.entered.set()
+                self.go.wait(10)
+                self.closed = True          # as SocketStream/PipeStream do on a failed write
+                raise EOFError("broken pipe")
+            if self.closed:
+                raise EOFError("stream has been closed")
+
+        def poll(self, timeout):
+            if self.closed:
+                raise EOFError("stream has been closed")
+            return False
+
+        def read(self, n):
+            raise EOFError("stream has been closed")
+
+        def close(self):
+            self.closed = True
+
+    st = Stream()
+    conn = make_connection(st)
+    out = {}
+
+    def sender_a():
+        try:
+            conn.async_request(consts.HANDLE_PING, "a")
+            out["A"] = "returned"
+        except Exception as ex:  # noqa
+            out["A"] = type(ex).__name__
+
+    ta = threading.Thread(target=sender_a, daemon=True)
+    ta.start()
+    st.entered.wait(10)
+    res_b = conn.async_request(consts.HANDLE_PING, "b", timeout=5)
+    queued_while_a_writes = len(conn._send_queue)
+    st.go.set()
+    ta.join(10)
+    report = dict(sender_whose_write_failed=out.get("A"), queued_by_B_while_A_wrote=queued_while_a_writes,
+                  left_queued_after_A_returned=len(conn._send_queue), lock_held_after_A_returned=conn._sendlock.locked(),
+                  connection_closed_flag_after_failure=conn.closed, stream_closed_after_failure=st.closed)
+    t0 = time.time()
+    try:
+        res_b.wait()
+        report["B_wait"] = "returned"
+    except Exception as ex:  # noqa
+        report["B_wait"] = "raised %s" % type(ex).__name__
+    report["B_wait_seconds"] = round(time.time() - t0, 2)
+    report["connection_closed_flag_after_B_wait"] = conn.closed
+    conn._closed = True
+    return report
+
+
 # ---------------------------------------------------------------------------------------------- direct oracle
 def oracle(run, res):
-    """None if the property holds on this schedule of the real code, else (description, signature)"""
+    """None if the property holds on this schedule of the real code, else (description, signature).
+    The statement, clause by clause; nothing more.  After an injected transport failure the message in the
+    failed write and whatever is queued cannot be transmitted by anybody: that is not held against `_send`
+    (Props/C12.lean `after_transport_failure`), everything else still is."""
     sc = run.sched
     if run.errors:
         lt, mid, name = run.errors[0]
-        return "sender of message %d raised %s" % (mid, name), "sender-raised:" + name
+        return "sender of message %s raised %s" % (mid, name), "sender-raised:" + name
     if sc.errors():
         t, ex = sorted(sc.errors().items())[0]
         return "thread %d raised %s" % (t, type(ex).__name__), "sender-raised:" + type(ex).__name__
@@ -756,7 +1085,15 @@ def oracle(run, res):
     dup = [i for i in set(ids) if ids.count(i) > 1]
     if dup:
         return "message(s) %s transmitted more than once" % sorted(dup), "duplicate"
+    for lt, prog in sorted(run.lt_prog.items()):
+        mine = [i for i in ids if i in prog]
+        if mine != [i for i in prog if i in mine]:
+            return ("messages of sender %d left in the order %s but were issued in the order %s"
+                    % (lt, mine, prog), "per-thread-order")
     for os_t, called in run.call_order.items():
+        # a nested send that started before an enclosing call had appended its own datum (a collection during
+        # `brine.dump`) is an independent issuer: the enclosing message has not been issued yet
+        called = [i for i in called if i not in run.early]
         mine = [i for i in ids if i in called]
         if mine != [i for i in called if i in mine]:
             return ("messages of thread %d left in the order %s but were issued in the order %s"
@@ -764,12 +1101,12 @@ def oracle(run, res):
     if res.truncated:
         return ("senders still running after %d steps (no configuration needs more than a few hundred)"
                 % len(res.schedule), "livelock")
-    if sc.all_finished():
+    if sc.all_finished() and not run.dead:
         q = [run.ident(x) for x in list.__iter__(run.conn._send_queue)]
         if q:
             return "all senders returned but message(s) %s are still queued" % q, "stranded"
         issued = [i for called in run.call_order.values() for i in called]
-        missing = sorted(set(issued) - set(ids))
+        missing = sorted(set(issued) - set(ids), key=str)
         if missing or trailing:
             return ("all senders returned but message(s) %s are not on the wire as whole packets (%d stray bytes)"
                     % (missing, trailing), "lost")
@@ -800,20 +1137,21 @@ def oracle_search(ctx, corr, broken):
                 best, actions, msg = trial, acts, v[0]
                 break
             lo += 1
-        case = dict(kind="schedule", progs=conf["progs"], reent=conf["reent"], schedule=best)
+        case = dict(kind="schedule", progs=conf["progs"], reent=conf["reent"], fail=conf.get("fail"), schedule=best)
         return case, "%s | actions: %s" % (msg, " ".join(actions)), sig
 
     known = getattr(ctx, "known_signatures", set())
     # 1. schedules the correspondence disagreed on
     for d in corr.disagreements[:300]:
         case = d["case"]
-        conf = dict(progs=case["progs"], reent=case["reent"])
+        conf = dict(progs=case["progs"], reent=case.get("reent", []), fail=case.get("fail"))
         v, schedule, actions = oracle_case(conf, case["schedule"])
         if v and v[1] not in known:
             return report(conf, schedule, v, actions)
     # 2. boundary corpus: every interleaving of the small configurations
-    for name, conf in quick_exhaustive():
-        for run, res in S.dfs(lambda: new_run(conf), access=access, max_steps=MAX_STEPS):
+    for name, conf in quick_exhaustive() + quick_stateful():
+        for run, res in S.dfs(lambda: new_run(conf), access=access, max_steps=MAX_STEPS,
+                              state_key=None if (name, conf) in quick_exhaustive() else state_key):
             try:
                 v = oracle(run, res)
                 schedule, actions = list(res.schedule), list(run.actions)
@@ -827,7 +1165,7 @@ def oracle_search(ctx, corr, broken):
     r = Rng(ctx.seed).fork("c12-search")
     i = 0
     while time.time() < deadline:
-        conf = random_config(r, i % 2 == 1)
+        conf = random_config(r, i % 2 == 1, with_fail=i % 5 == 3)
         run, res = run_one(conf, rng=r, stickiness=[0, 2, 6][i % 3])
         try:
             v = oracle(run, res)
@@ -841,7 +1179,7 @@ def oracle_search(ctx, corr, broken):
 
 
 def replay(case):
-    conf = dict(progs=case["progs"], reent=case["reent"])
+    conf = dict(progs=case["progs"], reent=case.get("reent", []), fail=case.get("fail"))
     run, res = run_one(conf, schedule=case["schedule"])
     try:
         v = oracle(run, res)
